@@ -144,6 +144,7 @@ class Ctx:
         for mod in prop_modules:
             path = os.path.join(LEAN, *mod.split(".")) + ".lean"
             src = open(path, encoding="utf-8").read()
+            src = re.sub(r"/-.*?-/", "", src, flags=re.S)      # theorem names are looked for outside comments
             ns = None
             m = re.search(r"^namespace\s+(\S+)", src, re.M)
             if m:
@@ -252,12 +253,16 @@ class Ctx:
                 self.samples.append({"cmd": cmd, "input": inp[:400], "implementation": impl[:300], "tags": tagl})
             if model_out.startswith("MALFORMED-REQUEST"):
                 raise RuntimeError(f"model could not read case {i}: {model_out}: {c[:300]}")
-            if spec.startswith("BAD") and ignore_spec and ignore_spec(spec[4:]):
-                spec = "ok"   # this specification clause belongs to another property
+            if spec.startswith("BAD"):
+                # a verdict may carry several clauses (` ;; `-separated); clauses of other properties are dropped
+                items = [x for x in spec[4:].split(" ;; ") if not (ignore_spec and ignore_spec(x))]
+                if not items:
+                    spec = "ok"
             if spec.startswith("BAD"):
                 self.impl_vs_spec_failures += 1
-                self.violation(f"{what_prefix}implementation violates the specification: {cmd}: {spec[4:][:300]}",
-                               f"case: {cmd}\ninput: {inp}\nimplementation: {impl}\nspecification-verdict: {spec}\nmodel: {model_out}\nrerun: harness group output {outdir} line {i + 1}")
+                for item in items:
+                    self.violation(f"{what_prefix}implementation violates the specification: {cmd}: {item[:300]}",
+                                   f"case: {cmd}\ninput: {inp}\nimplementation: {impl}\nspecification-verdict: BAD:{item}\nmodel: {model_out}\nrerun: harness group output {outdir} line {i + 1}")
             elif agree != "agree":
                 self.model_vs_impl_disagreements += 1
                 self.violation(f"{what_prefix}correspondence {cmd} broke: model and implementation differ (the implementation's output still satisfies the specification checks evaluated on this input)",
